@@ -13,6 +13,7 @@ void logon() {
   add_action("cmd_any", "", 1);
   add_action("cmd_do", "do");
   add_action("cmd_x", "x");
+  add_action("cmd_nf", "nf");
 #ifdef LOGON_SCRIPT
   run(LOGON_SCRIPT);
 #endif
@@ -53,7 +54,12 @@ int cmd_do(string arg) {
   return 1;
 }
 
+// a command that fails after registering a notify_fail function: the driver runs the function once every action said no
+string nf_cb(string script) { rec("NFCB " + me()); run(script); return "NFMSG " + me() + "\n"; }
+int cmd_nf(string arg) { rec("NF " + me() + " " + arg); notify_fail((: nf_cb, arg :)); return 0; }
+
 int cmd_any(string arg) {
+  if (query_verb() == "nf") return 0;
   rec("CMD " + me() + " " + query_verb() + (arg ? " " + arg : ""));
   return 1;
 }
